@@ -893,6 +893,85 @@ make_field!(
     16,
 );
 
+// Verification hook (feature `prio_verif`): the same `make_field!` expansion over scaled-down
+// parameter sets, so that a solver can cover every operand of the generic code.
+#[cfg(feature = "prio_verif")]
+use crate::fp::verif_params::{FP16, FP16S, FP8};
+
+#[cfg(feature = "prio_verif")]
+impl Integer for u8 {
+    type TryFromUsizeError = <Self as TryFrom<usize>>::Error;
+    type TryIntoU64Error = <Self as TryInto<u64>>::Error;
+
+    fn zero() -> Self {
+        0
+    }
+
+    fn one() -> Self {
+        1
+    }
+
+    fn checked_ilog2(&self) -> Option<u32> {
+        u8::checked_ilog2(*self)
+    }
+
+    fn checked_add(&self, rhs: Self) -> Option<Self> {
+        u8::checked_add(*self, rhs)
+    }
+}
+
+#[cfg(feature = "prio_verif")]
+impl Integer for u16 {
+    type TryFromUsizeError = <Self as TryFrom<usize>>::Error;
+    type TryIntoU64Error = <Self as TryInto<u64>>::Error;
+
+    fn zero() -> Self {
+        0
+    }
+
+    fn one() -> Self {
+        1
+    }
+
+    fn checked_ilog2(&self) -> Option<u32> {
+        u16::checked_ilog2(*self)
+    }
+
+    fn checked_add(&self, rhs: Self) -> Option<Self> {
+        u16::checked_add(*self, rhs)
+    }
+}
+
+#[cfg(feature = "prio_verif")]
+make_field!(
+    /// `GF(17)`, an 8-bit field (verification hook).
+    Field8,
+    u8,
+    u8,
+    FP8,
+    1,
+);
+
+#[cfg(feature = "prio_verif")]
+make_field!(
+    /// `GF(61441)`, a 16-bit field (verification hook).
+    Field16,
+    u16,
+    u16,
+    FP16,
+    2,
+);
+
+#[cfg(feature = "prio_verif")]
+make_field!(
+    /// `GF(61441)`, a 16-bit field with split-word multiplication (verification hook).
+    Field16S,
+    u16,
+    u16,
+    FP16S,
+    2,
+);
+
 /// Merge two vectors of fields by summing other_vector into accumulator.
 ///
 /// # Errors
